@@ -2,6 +2,7 @@
 From Coq Require Import List NArith Arith Bool.
 From SKV Require Import Base.Lex Txn.WriteSet Spec.Store.
 From SKV Require Import Crash.Proto Crash.ProtoSpec Crash.ProtoRefute Crash.Proto_proofs Crash.ProtoRecovery_proofs.
+From SKV Require Import Codec.VlogParams Lsm.VlogOpen Lsm.VlogOpenSpec Lsm.VlogOpen_proofs.
 Import ListNotations.
 
 (* recovery as a specification: the state after the first n commits; states of longer prefixes
@@ -54,3 +55,22 @@ Proof. exact p4_needed. Qed.
 
 Theorem C07_p5_rejected : p5_rejected_stmt.
 Proof. exact p5_rejected. Qed.
+
+(* value-log directory: whatever prefix of its header a crash leaves of a new value-log file (nothing, a torn header,
+   all of it), the directory opens, the writer completes the header and the next open accepts the file; the open
+   changes no file that holds a complete header.  VLOG_OPEN_EMPTIES_TORN_HEADER is generated from src/vlog.rs
+   (prefill_file_handles); before the repair a one-byte header refused the directory for good *)
+Theorem C07_vlog_open_params : vopen_params_ok = true.
+Proof. reflexivity. Qed.
+
+Theorem C07_vlog_header_accepted : header_accepted_stmt.
+Proof. exact header_accepted. Qed.
+
+Theorem C07_every_vlog_header_prefix_opens : every_header_prefix_opens_stmt VLOG_OPEN_EMPTIES_TORN_HEADER.
+Proof. exact (every_header_prefix_opens VLOG_OPEN_EMPTIES_TORN_HEADER eq_refl). Qed.
+
+Theorem C07_vlog_open_keeps_or_empties_torn : open_keeps_or_empties_torn_stmt.
+Proof. exact open_keeps_or_empties_torn. Qed.
+
+Theorem C07_torn_vlog_header_refused_without_repair : torn_header_refused_without_repair_stmt.
+Proof. exact torn_header_refused_without_repair. Qed.
